@@ -3,8 +3,8 @@
 Specification: spec/Lexer.tla (lexer.go as a byte machine), spec/Grammar.tla (what the precedence block
 of parser.go.y means, as a deterministic parser over tokens; the printer of query.go), model checked by
 spec/LexerNumMC.tla (number scanner automaton = recursive scanner = regular expression, every text up to
-a length) and spec/GrammarMC.tla (every token sequence up to a length over six alphabets: round trip,
-print stability, blanks/comments irrelevant).
+a length) and spec/GrammarMC.tla (every token sequence up to a length over nine alphabets: round trip,
+print stability, blanks/comments irrelevant; two negative controls).
 
 model -> code : GenOps.tla writes every ordered pair and triple of the 24 binary operators around atoms
                 and around every delimiting construct, and the token alphabets; the check enumerates all
@@ -511,16 +511,11 @@ def src_text(b):
         return repr(bytes(b))
 
 
-# ---- known findings: attribution by the deviation switches of Grammar.tla (DESIGN 4)
-FINDINGS = {"emptyImport": "F-C09-empty-import-path", "dotBracket": "F-C09-identity-bracket-suffix"}
-
-
 class Checker:
     def __init__(self, rep, work, vh):
         self.rep, self.work, self.vh = rep, work, vh
         self.c = {}
         self.pending = []     # (kind, what, case, actual, expected) to be reproduced before reporting
-        self.open_ids = {k["id"] for k in rep.known}
         self.nsample = {}
         self.drift = []
 
@@ -529,15 +524,6 @@ class Checker:
 
     def disagree(self, kind, what, case, actual, expected=None):
         self.pending.append((kind, what, case, actual, expected))
-
-    def finding(self, dev, what):
-        fid = FINDINGS[dev]
-        self.bump("finding:" + fid)
-        if fid in self.open_ids:
-            self.rep.known_finding(fid, what)
-        else:
-            self.rep.cov.setdefault("unlisted_findings", {})
-            self.rep.cov["unlisted_findings"][fid] = self.rep.cov["unlisted_findings"].get(fid, 0) + 1
 
     def classify(self, rec, v, family):
         """one trace record against its verdict"""
@@ -574,20 +560,8 @@ class Checker:
                 self.disagree("ast", "%r: the AST of the real parser is not the tree the grammar specification gives" % src, case, {"printed": rec["printed"]})
             elif not real_rt:
                 good = False
-                fix = v["fix"]
-                if not v["srt"] and fix["all"]:
-                    # the real code fails the law as the specification OF THE CODE predicts for this AST, and the law holds with
-                    # the deviation(s) of query.go repaired: a genuine defect attributed to the finding(s) of those deviations
-                    if v["pr"]:
-                        rep.count("traces_validated_against_impl")
-                    else:
-                        self.bump("printer_text_differs_from_spec")
-                    devs = [d for d in ("emptyImport", "dotBracket") if fix.get(d)][:1] or ["emptyImport", "dotBracket"]
-                    for d in devs:
-                        self.finding(d, "%r prints as %r, which %s" % (src, src_text(rec["printed"]), how))
-                else:
-                    self.bump("mismatch_roundtrip")
-                    self.disagree("roundtrip", "%r: String() = %r %s" % (src, src_text(rec["printed"]), how), case, rtinfo)
+                self.bump("mismatch_roundtrip")
+                self.disagree("roundtrip", "%r: String() = %r %s" % (src, src_text(rec["printed"]), how), case, rtinfo)
             elif not v["pr"]:
                 # the text differs from the printer specification but parses back to the same AST: the property holds
                 # on this record, the specification is no longer a model of the printer (reported as drift, exit 2)
@@ -736,6 +710,10 @@ def corpus(work, vh):
 
 NUM_ALPHABET = "019.eE+-a_"
 
+REGRESSION = ['import "" as a; .', 'import "" as $a {x: 1}; include ""; .', 'import "" as a; . .[0]', ". .[0]", ". . [ .a ]", ".a | . .[1:2]",
+              ". .[1:2]", ". .[0]?", ". .[0].a[1]", ". .a", '. ."a"', '. . "a"', ". .[]", ".[]", ".[0]", "..[0]", ".. .[0]", "..[]", ". .[:1]",
+              "-. .[0]", "[. .[0]]", '"\\(. .[0])"', "1.[0]", ". .[. .[0]]"]
+
 
 def run(tier, seed, replay):
     rep = vc.Report(PROP, tier, seed)
@@ -764,6 +742,15 @@ def run(tier, seed, replay):
             model_check, work, "LexerNumMC.tla",
             "SPECIFICATION Spec\nCONSTANTS\n  MaxLen = %d\nINVARIANTS DfaIsScanner ScannerIsRegex TonumberIsRegex PrefixToken\nCHECK_DEADLOCK FALSE\n" % numlen,
             "num", 2 if quick else 4, 300 if quick else 1200)))
+
+        # negative controls of the model: with a deviation of the printer switched on TLC must find the counterexample
+        negs = [("GrammarMC negative control dotBracket", pool.submit(
+            model_check, work, "GrammarMC.tla",
+            "SPECIFICATION Spec\nCONSTANTS\n  Profile = \"terms\"\n  MaxLen = 5\nINVARIANTS NegDotBracket\nCHECK_DEADLOCK FALSE\n", "neg1", 2, 600))]
+        if not quick:
+            negs.append(("GrammarMC negative control emptyImport", pool.submit(
+                model_check, work, "GrammarMC.tla",
+                "SPECIFICATION Spec\nCONSTANTS\n  Profile = \"modules\"\n  MaxLen = 5\nINVARIANTS NegEmptyImport\nCHECK_DEADLOCK FALSE\n", "neg2", 2, 1200)))
 
         # ---- 1. TLC-enumerated cases
         out = work.path("genops.ndjson")
@@ -805,6 +792,10 @@ def run(tier, seed, replay):
             rep.cov["exhaustive_ops"] = "all pairs and triples in 4 atom styles, all operator pairs around 24 constructs"
         rep.cov["tlc_enumerated_operator_texts"] = len(sel)
         recs_ops, ver_ops = ck.run_family("operators", [{"src": o["src"], "tag": o["tag"]} for o in sel], spans=True)
+
+        # ---- regression witnesses of the two printer defects repaired in /repo (F-C09-empty-import-path,
+        #      F-C09-identity-bracket-suffix) and their neighbours: they must agree and round-trip now
+        ck.run_family("regression", [{"src": x, "tag": "regression"} for x in REGRESSION])
 
         # ---- 2. every token sequence over the alphabets of C09Universe, blank-separated and glued
         seqlen = 3 if quick else 4
@@ -873,6 +864,13 @@ def run(tier, seed, replay):
                 rep.notes.append("model checking run %s hit its time limit after %d states (counted, no verdict)" % (name, res.distinct))
             elif not res.ok():
                 raise vc.ToolError("SPEC: model checking run %s failed (a property of the SPECIFICATION, not of the code):\n%s" % (name, vc.tlc_error_text(res)))
+        for name, fu in negs:
+            res = fu.result()
+            rep.add_tlc(res)
+            found = "is violated" in res.out
+            rep.cov.setdefault("model_checking", []).append({"run": name, "distinct_states": res.distinct, "counterexample_found": found, "wall_s": round(res.wall, 1)})
+            if not found and not res.timeout:
+                raise vc.ToolError("SPEC: %s did not find its counterexample (the model lost its sensitivity):\n%s" % (name, vc.tlc_error_text(res)))
         pool.shutdown()
 
         ck.settle()
